@@ -2,10 +2,12 @@
     (harness/cmd/c17) writes [coq/gen/Cases_C17_*.v] with the inputs it gave to
     pkg/tools/lcp.go AND what the implementation returned; [check] re-runs the
     model of Model/LCP.v on the same inputs. *)
-From CSS Require Import Lib.Base Lib.Cases Model.LCP.
+From CSS Require Import Lib.Base Lib.Cases Model.LCP Model.LCPConfig.
 
 (** observed result with the error class (1 io.EOF, 2 io.ErrUnexpectedEOF,
-    3 "can't parse", 4 tpm2 hash lookup failed, 5 "invalid hash algorithm") *)
+    3 "can't parse", 4 tpm2 hash lookup failed, 5 "invalid hash algorithm";
+    loadConfig: 6 strconv.ParseUint error, 7 "invalid LCP Version", 8 "cant determin
+    hash algorithm", 9 "invalid PolicyType") *)
 Inductive robs (A : Type) : Type :=
 | ROk (a : A)
 | RErr (c : Z)
@@ -65,7 +67,10 @@ Inductive case : Type :=
 | CParse (sha3 : bool) (b : list Z) (r : robs (policy1 + policy2))
 (* LCPPolicy{PolicyControl:w}.ParsePolicyControl, LCPPolicy2{...}.ParsePolicyControl2,
    ParseApprovedHashAlgorithm, ParseApprovedSignatureAlgorithm on raw words *)
-| CFlags (wpc wah was : Z) (pc1 pc2 ah sg : list bool).
+| CFlags (wpc wah was : Z) (pc1 pc2 ah sg : list bool)
+(* txt-prov loadConfig(file) with the eight strings of the JSON config (a key that is not set
+   = the empty string); run in the txt-prov binary itself *)
+| CConfig (c : config) (r : robs policy2).
 
 Definition check (c : case) : bool :=
   match c with
@@ -76,6 +81,7 @@ Definition check (c : case) : bool :=
   | CFlags wpc wah was pc1 pc2 ah sg =>
       blist_eqb (pc_list (parse_pc wpc)) pc1 && blist_eqb (pc_list (parse_pc wpc)) pc2 &&
       blist_eqb (ah_list (parse_ah wah)) ah && blist_eqb (as_list (parse_as was)) sg
+  | CConfig c r => robs_match p2_eqb r (load_config c)
   end.
 
 Definition mismatches := mismatches_by check.
